@@ -461,6 +461,9 @@ def handle (st : DState) (line : String) : DState × String :=
   | ["SF", n8] => match parseHex n8 with
     | some n => let c := st.cpu.setFreqEighths (UInt32.ofNat n); ({ st with cpu := c }, "V " ++ toString c.slice.max.toNat)
     | none => bad
+  | ["SFB", bits] => match parseHex bits with
+    | some n => let c := st.cpu.setFreqBits (UInt32.ofNat n); ({ st with cpu := c }, "V " ++ toString c.slice.max.toNat)
+    | none => bad
   | ["NAP", _] => (st, "ok")
   | ["SD", d] => match parseHex d with
     | some d => ({ st with cpu := st.cpu.setSliceDuration (UInt32.ofNat d) }, "ok") | none => bad
